@@ -115,7 +115,7 @@ PROPS.update({
                 'reversed <-> code ends R/Y; open <-> code ends X/Y; open => no lap distance; one licence per two-letter area; variant identifiers = codes; tables complete'],
         modelled=['all seven tables (variants, read arms, write arms, code, licence, distance, reverse set, open set) are REGENERATED from track.rs on every run; Display = code() is pinned syntactically',
                   'lookup semantics of the generated match (first matching 6-byte pattern, wildcard = NoVariantMatch) tied by correspondence on the exhaustive shaped space']),
-    'C15': dict(gens=['vehicle', 'track', 'consts', 'packets'], coq_targets=['Props/C15.vo'], coqchk_modules=['Props.C15'], group='wire', harness='c15', axioms_allowed=[],
+    'C15': dict(gens=['vehicle', 'track', 'consts', 'packets', 'racelaps'], coq_targets=['Props/C15.vo'], coqchk_modules=['Props.C15'], group='wire', harness='c15', axioms_allowed=[],
         proved=['scaled time fields, any width and scale: every wire value decodes to a duration that re-encodes to the same wire value; encoding = floor(ms/scale) or an error when it does not fit; the encoded value is exactly floor(ms/scale)',
                 'the time fields of the 73 regenerated layouts are 16/32-bit with 1 ms or 10 ms resolution',
                 'race-length byte: 0..238 re-encode exactly, 239..255 are practice; for ALL lap/hour counts the encoded byte is practice, the same count, or (100..1000 laps) the count rounded down to 10 - never another value',
